@@ -5,7 +5,7 @@
    ASCII, underscore rule, ASCII whitespace strip, _PyOS_ascii_strtod grammar) as
    a function to an exact decimal reading, and the string post-processing of
    FloatConverter.serialize.  No proofs here. *)
-From Coq Require Import NArith ZArith List Bool PrimFloat.
+From Coq Require Import NArith ZArith List Bool.
 From XV Require Import Base.Str Base.Dec Base.PyInt Gen.ConvTables Model.ConvDecimal.
 Import ListNotations.
 Open Scope N_scope.
@@ -38,11 +38,7 @@ Definition c_isspace (c : N) : bool := ((9 <=? c) && (c <=? 13)) || (c =? 32).
 
 (* _PyOS_ascii_strtod on the whole remaining string *)
 Definition float_parse_ascii (s : str) : option fsyn :=
-  let '(neg, r) := match s with
-                   | 43 :: t => (false, t)
-                   | 45 :: t => (true, t)
-                   | _ => (false, s)
-                   end in
+  let '(neg, r) := split_pm s in
   if starts_ci [105;110;102] r then
     let t := skipn 3 r in
     if (length t =? 0)%nat || eq_ci [105;110;105;116;121] t then Some (FsInf neg) else None
@@ -67,23 +63,31 @@ Definition float_syntax (s : str) : option fsyn :=
 (* str.upper() on the characters repr() can produce *)
 Definition str_upper (s : str) : str := map ascii_upper s.
 
+(* how FloatConverter.serialize classifies its argument: math.isnan(x),
+   x == float("inf"), x == -float("inf"), otherwise finite *)
+Inductive fclass := FcFinite | FcPosInf | FcNegInf | FcNaN.
+
 Section WithCPython.
   (* the part of CPython that is assumed, not modelled; the hypotheses about it
-     live in Proofs/ConvFloat.v (record CPythonFloat) *)
-  Variable frepr : float -> str.           (* repr(x) *)
-  Variable fround : fsyn -> float.         (* correctly rounded decimal -> binary64 *)
+     are the record CPythonFloat of Proofs/ConvFloat.v *)
+  Variable F : Type.                       (* binary64 values *)
+  Variable fclass_of : F -> fclass.
+  Variable frepr : F -> str.               (* repr(x) *)
+  Variable fround : fsyn -> F.             (* correctly rounded decimal -> binary64 *)
 
   (* FloatConverter.deserialize: float(value) *)
-  Definition float_deser (s : str) : option float := option_map fround (float_syntax s).
+  Definition float_deser (s : str) : option F := option_map fround (float_syntax s).
 
   (* FloatConverter.serialize *)
-  Definition float_ser (x : float) : str :=
+  Definition float_ser (x : F) : str :=
     match float_ser_consts with
     | [s_nan; s_inf; s_ninf; e_from; e_to] =>
-        if is_nan x then s_nan
-        else if PrimFloat.eqb x infinity then s_inf
-        else if PrimFloat.eqb x neg_infinity then s_ninf
-        else str_replace e_from e_to (str_upper (frepr x))
+        match fclass_of x with
+        | FcNaN => s_nan
+        | FcPosInf => s_inf
+        | FcNegInf => s_ninf
+        | FcFinite => str_replace e_from e_to (str_upper (frepr x))
+        end
     | _ => []
     end.
 End WithCPython.
